@@ -63,3 +63,15 @@ MUTANTS["C04"] = [
     ("fix_to_round_2", "lentil/propagate.py", "        fix_shift = np.fix(shift)", "        fix_shift = np.fix(shift) + 2"),
     ("wavefront_tilt_ignored", "lentil/wavefront.py", "            tilt = [Tilt(x=tilt[0], y=tilt[1])]", "            tilt = [Tilt(x=tilt[1], y=tilt[0])]"),
 ]
+MUTANTS["C09"] = [
+    ("no_ortho", "lentil/propagate.py", "np.fft.fft2(np.fft.ifftshift(x), norm='ortho')", "np.fft.fft2(np.fft.ifftshift(x))"),
+    ("fft_shape_floor", "lentil/propagate.py", "fft_shape = np.round(np.reciprocal(alpha)).astype(int)", "fft_shape = np.floor(np.reciprocal(alpha)).astype(int)"),
+    ("scratch_not_zeroed", "lentil/propagate.py", "        scratch[0:fft_shape[0], 0:fft_shape[1]] = 0\n", "        pass\n"),
+    ("prop_wavelength_max", "lentil/propagate.py", "prop_wavelength = np.min((fft_shape/oversample * dx * du)/z)", "prop_wavelength = np.max((fft_shape/oversample * dx * du)/z) * (1 + 1e-9)"),
+    ("no_tilt_guard", "lentil/propagate.py", "    if _has_tilt(wavefront):\n        raise NotImplementedError", "    if False:\n        raise NotImplementedError"),
+    ("shift_order_odd", "lentil/propagate.py", "np.fft.fftshift(np.fft.fft2(np.fft.ifftshift(x), norm='ortho'))", "np.fft.ifftshift(np.fft.fft2(np.fft.fftshift(x), norm='ortho'))"),
+    ("scratch_strict", "lentil/propagate.py", "np.asarray(scratch.shape) >= fft_shape", "np.asarray(scratch.shape) > fft_shape"),
+    ("shape_check_off", "lentil/propagate.py", "        if np.any(shape > fft_shape/oversample):", "        if np.any(shape > fft_shape):"),
+    ("scratch_shape_min", "lentil/propagate.py", "fft_shape, _ = _fft_shape(dx, du, z, np.max(wavelength), oversample)", "fft_shape, _ = _fft_shape(dx, du, z, np.min(wavelength), oversample)"),
+    ("has_tilt_first_only", "lentil/propagate.py", "    for field in wavefront.data:\n        if field.tilt:\n            return True\n    return False", "    for field in wavefront.data:\n        return bool(field.tilt)\n    return False"),
+]
